@@ -152,6 +152,9 @@ func kill(p process, name string, deadline time.Time) error {
 	// which means the process is terminated
 	case <-p.termination:
 		log.Debugf("Process %s already terminated.", name)
+		// Members of its process group may have outlived it (children that ignore SIGTERM):
+		// the process was started as the leader of its own group, so the group id is its pid
+		_ = syscall.Kill(-p.pid, syscall.SIGKILL)
 		return nil
 	default:
 		log.Infof("Sending SIGKILL to %s(%d).", name, p.pid)
